@@ -122,6 +122,9 @@ func (p c01) Gen(c *run.Ctx, idx int) (json.RawMessage, error) {
 	if r.Intn(6) == 0 && cu.mono.Mutation != nil {
 		prof.Kind = ast.Mutation
 	}
+	if uidx%6 == 4 {
+		prof.HostileAliases, prof.PAlias = true, 0.2
+	}
 	if idx%10 == 3 {
 		// a client variable called `id`: the name the gateway uses for its own object lookups
 		prof.PVar, prof.PVarNamedID = 0.6, 0.7
